@@ -34,8 +34,8 @@ TOL_EIG = 1e-4          # inertia tensors, max|dI| / max|I|: the compiler diagon
 TOL_DERIVED_FUSE = 1e-4 # derived quantities when fusestatic re-diagonalises aggregated inertias (inherits TOL_EIG)
 TRAJ_ATOL = 1e-10       # trajectory: absolute floor ...
 TRAJ_K = 1.0            # ... plus K x (response of the plain model to a 1e-12 perturbation of its state)
-TRAJ_ATOL_FUSE = 1e-7   # fusestatic: the fused inertia is re-diagonalised (relative error up to ~3e-6, see TOL_EIG), i.e. a
-TRAJ_K_FUSE = 3e6       # parameter perturbation ~3e6 times larger than the 1e-12 probe; worst observed ratio diff/resp ~600
+TRAJ_ATOL_FUSE = 1e-6   # fusestatic: the fused inertia is re-diagonalised (relative error up to ~3e-6, see TOL_EIG), i.e. a
+TRAJ_K_FUSE = 3e7       # parameter perturbation ~3e6 times larger than the 1e-12 probe; x10 margin (thorough: worst diff = 0.04 x this tol)
 ILLCOND = 1e-6          # response above this: labelled illconditioned, trajectory comparison skipped
 
 OBJTYPES = ('body', 'joint', 'geom', 'site', 'camera', 'tendon', 'actuator', 'sensor')
@@ -1101,7 +1101,7 @@ def main(ck):
                                 TRAJ_K=TRAJ_K, ILLCOND=ILLCOND)
   # calibration (unchanged tree, quick tier, seeds 1-5 + thorough): worst passing errors direct 9e-16 (tol 1e-12, design
   # value), derived 1.6e-13 (tol 1e-10), inertia tensors 8.7e-7 (tol 1e-4, bound from kEigEPS), fused/jitter derived 1e-9
-  # (tol 1e-4, inherits TOL_EIG), trajectories diff/tol <= 1e-2; all 10 mutants of mutants/C36 remain caught.
+  # (tol 1e-4, inherits TOL_EIG), trajectories diff/tol <= 1.5e-2 (fuse/jitter: <= 0.04); all 10 mutants of mutants/C36 remain caught.
   ck.extra['max_observed_error'] = {k: dict(err=v[0], field=v[1]) for k, v in STATS.maxerr.items()}
 
 
